@@ -723,7 +723,12 @@ class _PairsClassifierMixin(BaseMetricLearner, ClassifierMixin):
 
     if strategy in ['max_tpr', 'max_tnr']:
       if strategy == 'max_tpr':
-        indices = np.where(1 - fpr >= min_rate)[0]
+        # the true negative rates, from the counts: `1 - fpr` carries one more
+        # rounding error, which can exclude a threshold whose true negative
+        # rate is exactly `min_rate` (1 - 4/5 < 0.2 in floating point)
+        n_neg = np.sum(y_valid != 1)
+        tnr = (n_neg - np.round(fpr * n_neg)) / n_neg
+        indices = np.where(tnr >= min_rate)[0]
         imax = np.argmax(tpr[indices])
 
       if strategy == 'max_tnr':
